@@ -3,7 +3,7 @@
    per-case checks) on the MODEL's output (observation kind 25). *)
 From Coq Require Import String List Bool ZArith NArith Arith QArith.
 From GV Require Import Base.Outcome Base.AMap Model.GState Model.Creation Model.Query
-     Model.Components Model.Scc Spec.ReachDef.
+     Model.Components Model.Scc Spec.ReachDef Spec.CompSpec.
 From GV Require Export Run.RunGraph.
 Import ListNotations.
 Close Scope Q_scope.
@@ -33,7 +33,7 @@ Definition part_obs (g : zstate) (k : nat) : list obs :=
 (* ---- per-case checks on the model's own output (kind 25) ---- *)
 Definition chk_comps (g : zstate) (k : rel_kind) (r : outcome (list (list Z))) : bool :=
   match r with
-  | Ok cs => check_components (get_all_node_names g) (edge_adj g) zeqb k cs
+  | Ok cs => check_components_g zeqb g k cs
   | Err _ => true
   | _ => false
   end.
@@ -46,7 +46,7 @@ Definition chk_bfs (g : zstate) (x : Z) : bool :=
   match breadth_first_search zeqb g x with
   | Ok l =>
     let names := get_all_node_names g in
-    let nb := if directed (sp g) then adj_e names (edge_adj g) zeqb else adj_s names (edge_adj g) zeqb in
+    let nb := if directed (sp g) then adj_e names (g_adj zeqb g) zeqb else adj_s names (g_adj zeqb g) zeqb in
     let cl := closure names zeqb nb x in
     match l with h :: _ => Z.eqb h x | [] => false end &&
     nodupb zeqb l && closed zeqb nb cl && same_set l cl
